@@ -584,6 +584,12 @@ def run(ctx):
     ctx.run_clause("C09.g", c09g_order)
     ctx.run_clause("C09.h", c09h)
     ctx.run_clause("C09.i", c09i)
+    # un-pin notifications release cached entries for eviction: they may only follow the commit of the data they cover, which
+    # is decided in the committer (C10.a: apply the expected epoch, consume before listing for notification), here as C09.j
+    from . import C10
+    ctx.alias = {"C10.a": "C09.j"}
+    ctx.run_clause("C09.j", C10.c10a)
+    ctx.alias = {}
     ctx.run_clause("C09.a", c09a)
     ctx.run_clause("C09.b", c09b)
     ctx.run_clause("C09.c", c09c)
